@@ -141,7 +141,8 @@ func wellTyped(v attr.Value, t attr.Type) bool {
 func predictFrom(m *spec.Msg, o types.Object, ot types.ObjectType, goPrefix string, out map[pdiag]bool, touched map[string]bool) {
 	for _, a := range m.Attrs {
 		if a.Placeholder {
-			// read like any primitive
+			// the placeholder of a message without attributes exists in the schema only: nothing is read
+			continue
 		}
 		gp := goPrefix
 		switch {
@@ -322,7 +323,7 @@ func predictTo(m *spec.Msg, sv reflect.Value, ot types.ObjectType, tfPath string
 		if a.Kind == spec.Custom || a.Msg == nil {
 			continue
 		}
-		f, fs := goField(sv, a)
+		f, fs := goFieldZeroEmbed(sv, a)
 		if fs != fsOK {
 			continue
 		}
@@ -484,64 +485,77 @@ func procC06(t *Target, tier string, r *Result) {
 		r.States += len(seen)
 		r.Nontrivial += len(seen)
 	}
-	// ---- To direction
-	src, _ := t.buildSOpt(&Chooser{}, BaseFull, sOpts{})
-	cleanO := EmptyObject(schema)
-	if res := t.callTo(src, &cleanO); res.Panicked || len(res.errs()) > 0 {
-		r.outcome("to/uncorrupted-run-failed")
-		return
-	}
-	cleanFlat := map[string]string{}
-	flattenO(cleanO, "", cleanFlat)
-	seen := map[string]bool{}
-	tprobe := &Chooser{}
-	(&corruption{ch: tprobe}).corruptType(st, "")
-	kt := k
-	for kt > 1 && estimate(len(tprobe.Arity), kt) > budget {
-		kt--
-	}
-	_, capped := Explore(kt, budget, func(ch *Chooser) {
-		c := &corruption{ch: ch}
-		ct := c.corruptType(st, "").(types.ObjectType)
-		key := strings.Join(c.applied, ";")
-		r.Evals++
-		if seen[key] || !mine(key) {
-			return
+	// ---- To direction: every set of removed attribute types is crossed with three sources (all
+	// pointers set, all pointers nil including nullable embedded parents, minimal non-zero)
+	bases := []struct {
+		name string
+		b    int
+	}{{"full", BaseFull}, {"zero", BaseZero}, {"min", BaseMin}}
+	var bounds []string
+	for bi, base := range bases {
+		src, _ := t.buildSOpt(&Chooser{}, base.b, sOpts{})
+		cleanO := EmptyObject(schema)
+		if res := t.callTo(src, &cleanO); res.Panicked || len(res.errs()) > 0 {
+			r.outcome("to/uncorrupted-run-failed")
+			continue
 		}
-		seen[key] = true
-		w := OWitness{Kind: "type-corruption", Choices: append([]int{}, ch.Choices...), Extra: key, Ops: []string{"SetS(full)", "EmptyO", "Corrupt(AttrTypes)", "To"}}
-		want := map[pdiag]bool{}
-		touched := map[string]bool{}
-		predictTo(t.Spec, reflect.ValueOf(src).Elem(), ct, "", want, touched)
-		o := types.Object{Attrs: map[string]attr.Value{}, AttrTypes: ct.AttrTypes}
-		res := t.callTo(src, &o)
-		r.Transitions++
-		if res.Panicked {
-			r.outcome("to/panic")
-			r.violate("to/panic", panicShape(t, src), fmt.Sprintf("CopyTo panics when attribute types are missing (%s): %s", key, res.Panic), w)
-			return
+		cleanFlat := map[string]string{}
+		flattenO(cleanO, "", cleanFlat)
+		seen := map[string]bool{}
+		tprobe := &Chooser{}
+		(&corruption{ch: tprobe}).corruptType(st, "")
+		kt := k
+		b := budget
+		if bi > 0 {
+			b = budget / 2
 		}
-		if len(want) == 0 {
-			r.outcome("to/no-diagnostic-predicted")
-		} else {
-			r.outcome("to/diagnostics-predicted")
+		for kt > 1 && estimate(len(tprobe.Arity), kt) > b {
+			kt--
 		}
-		judgeDiags(r, w, "to", errDiags(res.Diags), want)
-		got := map[string]string{}
-		flattenO(o, "", got)
-		for _, dk := range diffKeys(cleanFlat, got) {
-			if !underAny(dk, touched) {
-				r.violate("to/other-attribute-not-written", "root", fmt.Sprintf("attribute %s differs from the uncorrupted run although its type is present (removed: %s)", dk, key), w)
-				break
+		_, capped := Explore(kt, b, func(ch *Chooser) {
+			c := &corruption{ch: ch}
+			ct := c.corruptType(st, "").(types.ObjectType)
+			key := strings.Join(c.applied, ";")
+			r.Evals++
+			if seen[key] || !mine(base.name+key) {
+				return
 			}
+			seen[key] = true
+			w := OWitness{Kind: "type-corruption", Choices: append([]int{}, ch.Choices...), Extra: base.name + "|" + key, Ops: []string{"SetS(" + base.name + ")", "EmptyO", "Corrupt(AttrTypes)", "To"}}
+			want := map[pdiag]bool{}
+			touched := map[string]bool{}
+			predictTo(t.Spec, reflect.ValueOf(src).Elem(), ct, "", want, touched)
+			o := types.Object{Attrs: map[string]attr.Value{}, AttrTypes: ct.AttrTypes}
+			res := t.callTo(src, &o)
+			r.Transitions++
+			if res.Panicked {
+				r.outcome("to/panic")
+				r.violate("to/panic", panicShape(t, src), fmt.Sprintf("CopyTo panics when attribute types are missing (source %s, removed %s): %s", base.name, key, res.Panic), w)
+				return
+			}
+			if len(want) == 0 {
+				r.outcome("to/no-diagnostic-predicted")
+			} else {
+				r.outcome("to/diagnostics-predicted")
+			}
+			judgeDiags(r, w, "to", errDiags(res.Diags), want)
+			got := map[string]string{}
+			flattenO(o, "", got)
+			for _, dk := range diffKeys(cleanFlat, got) {
+				if !underAny(dk, touched) {
+					r.violate("to/other-attribute-not-written", "root", fmt.Sprintf("attribute %s differs from the uncorrupted run although its type is present (source %s, removed: %s)", dk, base.name, key), w)
+					break
+				}
+			}
+		})
+		if capped {
+			r.Capped = true
 		}
-	})
-	if capped {
-		r.Capped = true
+		r.States += len(seen)
+		r.Nontrivial += len(seen)
+		bounds = append(bounds, fmt.Sprintf("%s<=%d", base.name, kt))
 	}
-	r.States += len(seen)
-	r.Nontrivial += len(seen)
-	r.Bound += fmt.Sprintf("To: sets of <= %d removed attribute types", kt)
+	r.Bound += "To: sets of removed attribute types per source " + strings.Join(bounds, ",")
 }
 
 func init() { procs["C06"] = procC06 }
